@@ -64,6 +64,44 @@ class AutoS(AutoParameterObject):
     def __init__(self, tags):
         self.tags = set(tags)
 
+class AutoK(AutoParameterObject):
+    """collects further keyword arguments and keeps them under the name of the ** parameter"""
+    def __init__(self, a, **options):
+        self.a = a
+        self.options = options
+
+class AutoV(AutoParameterObject):
+    """collects positional arguments and keeps them under the name of the * parameter"""
+    def __init__(self, *steps, mode='x'):
+        self.steps = list(steps)
+        self.mode = mode
+
+class AutoP(AutoParameterObject):
+    """keeps the argument as given in the private attribute and shows a processed form under the public name"""
+    def __init__(self, path, scale=1):
+        self._path = path
+        self._scale = scale
+
+    @property
+    def path(self):
+        return 'resolved:' + str(self._path)
+
+    @property
+    def scale(self):
+        return float(self._scale) * 100
+
+class AutoD(AutoParameterObject):
+    """arguments left out of the text at their default value, with defaults of several types"""
+    def __init__(self, x, rate=1.0, flag=1, opts={'a': 1, 'b': [2]}):
+        self.x = x
+        self.rate = rate
+        self.flag = flag
+        self.opts = opts
+
+    @staticmethod
+    def dont_persist_default_value_args():
+        return ['rate', 'flag', 'opts']
+
 class User(ParameterObject):
     def __init__(self, text):
         self.text = text
@@ -77,7 +115,7 @@ class Plain:
         self.kwargs = kwargs
 '''
     exec(src, m.__dict__)
-    for c in ('AutoA', 'AutoB', 'AutoC', 'Hooked', 'AutoS', 'User', 'Plain'):
+    for c in ('AutoA', 'AutoB', 'AutoC', 'Hooked', 'AutoS', 'AutoK', 'AutoV', 'AutoP', 'AutoD', 'User', 'Plain'):
         getattr(m, c).__module__ = name
     sys.modules[name] = m
     return m
@@ -88,6 +126,11 @@ AUTO_SIGS = {
     'AutoB': dict(params=[('x', [None]), ('y', [None]), ('debug', [0])], ignore=['verbose', 'debug'], dropdef=['y']),
     'Hooked': dict(params=[('a', None)], ignore=['verbose', 'debug'], dropdef=[]),
     'AutoS': dict(params=[('tags', None)], ignore=['verbose', 'debug'], dropdef=[]),
+    'AutoK': dict(params=[('a', None)], ignore=['verbose', 'debug'], dropdef=[], varkw='options'),
+    'AutoV': dict(params=[('mode', ['x'])], ignore=['verbose', 'debug'], dropdef=[], varpos='steps'),
+    'AutoP': dict(params=[('path', None), ('scale', [1])], ignore=['verbose', 'debug'], dropdef=[]),
+    'AutoD': dict(params=[('x', None), ('rate', [1.0]), ('flag', [1]), ('opts', [{'a': 1, 'b': [2]}])], ignore=['verbose', 'debug'],
+                  dropdef=['rate', 'flag', 'opts']),
     'AutoC': dict(params=[('step', None), ('debug_max_rows', [0]), ('verbose_labels', [False]), ('debug', [0])],
                   ignore=['verbose', 'debug'], dropdef=[]),
 }
@@ -101,7 +144,9 @@ def materialize(spec):
         return [materialize(x) for x in spec]
     if isinstance(spec, dict):
         if '__auto__' in spec:
-            return getattr(m, spec['__auto__'])(**{k: materialize(v) for k, v in spec['args'].items()})
+            args = {k: materialize(v) for k, v in spec['args'].items()}
+            varpos = AUTO_SIGS.get(spec['__auto__'], {}).get('varpos')
+            return getattr(m, spec['__auto__'])(*(args.pop(varpos, []) if varpos else []), **args)
         if '__inst__' in spec:
             return find_and_instantiate_clazz(definition_of(spec))
         if '__user__' in spec:
@@ -121,8 +166,12 @@ def definition_of(spec):
             return {'class': f'tcv_dyn_objects.{spec["__inst__"]}', 'args': definition_of(spec['args']),
                     'kwargs': {k: definition_of(v) for k, v in spec['kwargs'].items()}}
         if '__auto__' in spec:
-            return {'class': f'tcv_dyn_objects.{spec["__auto__"]}',
-                    'kwargs': {k: definition_of(v) for k, v in spec['args'].items()}}
+            varpos = AUTO_SIGS.get(spec['__auto__'], {}).get('varpos')
+            d = {'class': f'tcv_dyn_objects.{spec["__auto__"]}',
+                 'kwargs': {k: definition_of(v) for k, v in spec['args'].items() if k != varpos}}
+            if varpos and varpos in spec['args']:
+                d['args'] = definition_of(spec['args'][varpos])
+            return d
         if '__user__' in spec:
             return {'class': 'tcv_dyn_objects.User', 'args': [spec['__user__']]}
         return {k: definition_of(v) for k, v in spec.items()}
@@ -147,6 +196,11 @@ def filtered_auto_args(spec):
         if name in sig['dropdef'] and default is not None and py_equal(v, default[0]):
             continue
         out[name] = v
+    declared = {name for name, _ in sig['params']}
+    if sig.get('varkw'):     # the ** parameter: a mapping of the remaining keyword arguments, in the order given
+        out[sig['varkw']] = {k: v for k, v in spec['args'].items() if k not in declared}
+    if sig.get('varpos'):    # the * parameter: the list the class keeps
+        out[sig['varpos']] = list(spec['args'].get(sig['varpos'], []))
     return out
 
 
